@@ -153,6 +153,18 @@ CHECKS = [
            're-read from a fresh handle, serialized, unset both ways and re-read; identity properties must refuse unsetting.',
       note='All singles and pairs, not all subsets; representative values per property (listed in checks/c02.py VOCAB); a setter '
            'without vocabulary entry is reported as a coverage gap in evidence (currently none).'),
+ dict(property_id='C01', engine='E2-enum + E1-bfs', level='exploration',
+      technique='model checking: exhaustive enumeration of small raw property graphs x adversarial values x formats x import entry points x store flavours, plus BFS over models reached through the topology API',
+      text='(a) All typed raw graphs up to 3 nodes, node keys colliding with internal ids, every adversarial value (empty, blanks, tab, '
+           'newline, quotes, markup, CDATA end, entity text, non-ASCII, "None", "true", JSON text, 0, 5, -1, 2^40) alone on a node and on an '
+           'edge property and all pairs of values, are stored next to two decoy graphs sharing the NodeIDs, serialized to GraphML and '
+           'JSON node-link and re-imported through import_graph_from_string / _file (new id), _string_direct / _file_direct (same id) and '
+           'clone_graph on both stores; the copy must equal the original (ids, classes, typed values, edges), validate, re-serialize to '
+           'the same content, carry the Neo4j label markup on every node and edge, and leave other graphs untouched. (b) Every model '
+           'reached by the topology driver (depth 3 from empty, 1-2 from rich roots, both flavours) gets the same treatment plus '
+           'Topology.serialize/load (string, file, new id) and import into the per-graph store. (c) The four shipped advertisement files.',
+      note="'\\r' and C0 controls and mixed Python types under one attribute name are outside the stated domain. Values are one-factor and "
+           'pairwise, not all combinations.'),
 ]
 _claimed = {c['property_id'] for c in CHECKS}
 NOT_APPLICABLE = [dict(property_id=p, reason='check not built yet in this revision (work in progress; model checking applies, see DESIGN.md)')
